@@ -100,6 +100,10 @@ def jobs_for(pid, rep):
             g = gen.Gen(rng.randrange(1 << 30), focus={"insert": 6, "remove": 4, "update": 4, "drop": 1, "repeat": 0.3}, handles=0.1)
             add(g.history(g.r.choice([8, 14]), p_read=0.3), i % 2, {"io": True, "mode": "w+", "prefill": True,
                                                                      "prefill_points": prefill_points(g.r.choice([0, 2]), g)})
+        # the database path is a symbolic link: the file behind the link must hold the contents
+        for i in range(24 if thorough else 6):
+            g = gen.Gen(rng.randrange(1 << 30), focus={"insert": 6, "remove": 4, "update": 4, "drop": 1, "repeat": 0.3}, handles=0.1)
+            add(g.history(g.r.choice([8, 14]), p_read=0.3), i % 2, {"io": True, "symlink": True})
         # large files: early-exit reads before appends (file position left mid-file, > 8 KiB)
         for i in range(6 if thorough else 2):
             g = gen.Gen(rng.randrange(1 << 30), focus={"insert": 8, "remove": 1, "update": 1}, handles=0.0)
@@ -137,7 +141,17 @@ def jobs_for(pid, rep):
             if pid == "C12":
                 ops.append({"op": "remove", "q": g.atom(), "m": concretise.NONE})
             add(ops, i % 2, {"io": True, "prefill": True, "prefill_points": prefill_points(size, g)})
+        if pid == "C16":
+            # flush_on_insert=False: appends must still land at the end of what was written before
+            for i in range(60 if thorough else 12):
+                g = gen.Gen(rng.randrange(1 << 30), focus={"insert": 12, "insert_multiple": 4, "remove": 0, "update": 0, "update_all": 0, "drop": 0, "remove_all": 0, "reindex": 0, "reopen": 0}, handles=0.0)
+                ops = g.history(14, p_read=0.25) + [{"op": "reopen"}]
+                add(ops, i % 2, {"io": True, "nostore": True, "csv": {"flush_on_insert": False}})
         if pid == "C12":
+            # the database path is a symbolic link
+            for i in range(30 if thorough else 8):
+                g = gen.Gen(rng.randrange(1 << 30), focus=focus, handles=0.0)
+                add(g.history(g.r.choice([8, 14]), p_read=0.2), i % 2, {"io": True, "symlink": True})
             # append-only access modes: every stored point must be on file when the insert returns
             for i in range(30 if thorough else 8):
                 g = gen.Gen(rng.randrange(1 << 30), focus={"insert": 10, "insert_multiple": 4, "remove": 0, "update": 0, "update_all": 0, "drop": 0, "remove_all": 0, "reindex": 0}, handles=0.0)
@@ -219,7 +233,7 @@ def cost_pairs(recorded):
     for t in recorded:
         n0 = len(t["init"])
         for e in t["events"]:
-            if e["a"]["op"] == "insert" and not e["exc"] and "io" in e:
+            if e["a"]["op"] == "insert" and not e["exc"] and "io" in e and not e.get("nostore"):
                 by.setdefault(n0 >= 100, set()).add(len(e["io"]["calls"]))
     return by
 
